@@ -126,6 +126,11 @@ def convert(ctx, x, src, dst):
         return x
     if d == "Scalar" and s in ("u64", "u32", "u8", "u16"):
         return ("from_int", x)
+    from .sym import INT_RANGES
+    if src[0] == "prim" and dst[0] == "prim" and s in INT_RANGES and d in INT_RANGES \
+            and INT_RANGES[d][0] <= INT_RANGES[s][0] and INT_RANGES[s][1] <= INT_RANGES[d][1]:
+        # lossless integer widening (`i128::from(x)`, `u64::from(b)`): same mathematical value
+        return x if x[0] == "int" else ("icast", x, s, d)
     if d == "ArrayVec" and s == "array":
         return ("arrayvec", x)
     if s == "param" or d == "param":
@@ -801,6 +806,29 @@ def elem_of(shape, uid, start=0):
     return ("elem", uid, start), start + 1
 
 
+def unrollable(shape):
+    """Every leaf of the shape can be indexed at a constant position."""
+    k = shape[0]
+    if k in ("zip",):
+        return unrollable(shape[1]) and unrollable(shape[2])
+    if k in ("enumerate", "take"):
+        return unrollable(shape[1])
+    if k == "map":
+        return unrollable(shape[3])
+    # only loops over *literal* collections are unrolled (array literals, in-place fills of local arrays, constant
+    # ranges, fixed-size chunkings); loops over symbolic collections keep their schematic summary even when N is small
+    if k in ("refs", "vals"):
+        inner = shape[1]
+        while inner[0] in ("box", "copied", "refv"):
+            inner = inner[1]
+        return inner[0] in ("array", "repeat")
+    if k in ("mutrefs", "chunks", "array"):
+        return True
+    if k == "range":
+        return shape[1][0] == "int" and shape[2][0] == "int"
+    return False
+
+
 def is_stream(shape):
     """An unbounded stream of independent draws: repeat_with(f), possibly filtered / mapped."""
     k = shape[0]
@@ -854,6 +882,8 @@ def shape_len(eng, shape):
         return None
     if k == "repeat_with":
         return "inf"
+    if k == "chunks":
+        return shape[3]
     if k == "adapter" and shape[1] in ("filter", "skip_while") and is_stream(shape[2]):
         return "inf"
     if k == "range":
@@ -1011,6 +1041,19 @@ def m_take(ctx, args):
     n = args[1]
     nn = n[1] if n[0] == "int" else (n[1] if n[0] == "cparam" else n)
     return ("iter", ("take", a[1], nn)) if a[0] == "iter" else ("call", ctx.oq, (a, n))
+
+
+@model("core::slice::chunks_exact", "core::slice::chunks")
+def m_chunks(ctx, args):
+    v, _, _ = array_like(ctx, args[0])
+    n = args[1]
+    total = vec_len(ctx.eng, v)
+    t = ctx.arg_ty(0)
+    if total is None and t is not None and strip_refs(t)[0] == "array":
+        total = strip_refs(t)[2]
+    if n[0] == "int" and isinstance(total, int) and n[1] > 0 and total % n[1] == 0:
+        return ("iter", ("chunks", v, n[1], total // n[1]))
+    return ("call", ctx.oq, tuple(args))
 
 
 @model("std::iter::Iterator::find_map", "std::iter::Iterator::find")
@@ -1240,6 +1283,22 @@ def m_next(ctx, args):
     info = eng.loops.get(uid)
     if info is None:
         return ("call", ctx.oq, (cur,))
+    if uid in eng.unroll:
+        kk, n_trip, shape = eng.unroll[uid]
+        if kk >= n_trip:
+            return NONE
+        e, _ = elem_of(shape, uid)
+        sub = {("idx", uid): ("int", kk)}
+        for j, lf in enumerate(leaves_of(shape)):
+            if lf[0] != "mutrefs":
+                sub[("elem", uid, j)] = eng.src_at(lf, ("int", kk))
+        e = eng.subst(e, sub)
+        eng.binders.pop()           # closures of map() adapters run outside the loop binder: the element is concrete
+        try:
+            body = instantiate_elem(eng, ctx, e)
+        finally:
+            eng.binders.append(uid)
+        return some(body)
     shape = None
     if cur[0] == "iter":
         shape = cur[1]
